@@ -91,16 +91,20 @@ def jobs(tier):
     rates = U.LAYOUT_RATES[:4] if tier == "quick" else U.LAYOUT_RATES
     modes = ("gapped", "cont", "gapped+gz9+cks") if tier == "quick" else tuple(U.MODES)
     bases = base_histories(tier)
+    bases2 = base_histories("quick")
     ci = 0
     for (n, d, fc, sc) in rates:
         starts = U.start_positions(n, d, fc, sc, U.EPOCHS[1:2] if tier == "quick" else U.EPOCHS[:2])
         for mode in modes:
-            sel = [starts[ci % len(starts)]] if tier == "quick" else starts[::3]
+            sel = [starts[ci % len(starts)]] if tier == "quick" else [starts[ci % len(starts)], starts[(ci + 5) % len(starts)]]
             ci += 1
-            for k0, label in sel:
+            for si, (k0, label) in enumerate(sel):
                 cfg = dict(c01._cfg(n, d, fc, sc, k0, mode))
-                for i in range(0, len(bases), 6):
-                    out.append(("py", cfg, bases[i:i + 6], "%d/%d %s %s" % (n, d, mode, label)))
+                # thorough: depth-3 base histories for the first rate in the two base modes, depth 2 elsewhere
+                deep = tier != "quick" and (n, d) == (10, 3) and mode in ("gapped", "cont")
+                bs = bases if (tier == "quick" or deep) else bases2
+                for i in range(0, len(bs), 6):
+                    out.append(("py", cfg, bs[i:i + 6], "%d/%d %s %s" % (n, d, mode, label)))
     # C API (no Python validation in front of the C checks)
     capi_bases = [b for b in bases if len(b) <= 2][:: (3 if tier == "quick" else 1)]
     for ri, (n, d, fc, sc) in enumerate(rates[:3]):
